@@ -219,6 +219,7 @@ type WEval struct {
 	parentEval *WEval                      // for a function literal: the evaluator of the function that creates it
 	argLay     map[ssa.Value]*Lay          // byte-slice parameters of an evaluated callee: the caller's layout of the argument
 	pathBlocks map[*ssa.BasicBlock]bool    // evaluation along one enumerated path: the blocks on it (writes elsewhere did not happen)
+	callSite   *ssa.Call                   // the call whose callee is being evaluated (for facts that hold at the call)
 	fillAcc    map[*ssa.MakeSlice]*ssa.Phi // buffers filled at a running offset: the offset's loop phi (its exit value is the length filled)
 	splitPhi   *ssa.Phi                    // set when a merged value had to be printed inside a term (see evalFuncResult)
 	splits     int
@@ -1237,6 +1238,18 @@ func (w *WEval) evalCall(c *ssa.Call) *Lay {
 	if sc.Pkg != nil && !strings.HasPrefix(sc.Pkg.Pkg.Path(), modPath) {
 		name = sc.String()
 	}
+	// binary.LittleEndian.AppendUintN(buf, v): buf followed by the N/8 bytes of v
+	if strings.HasPrefix(sc.Name(), "AppendUint") && strings.Contains(sc.String(), "encoding/binary") && len(c.Call.Args) == 3 {
+		width := 0
+		fmt.Sscanf(strings.TrimPrefix(sc.Name(), "AppendUint"), "%d", &width)
+		if width == 16 || width == 32 || width == 64 {
+			k := "le"
+			if strings.Contains(sc.String(), "bigEndian") {
+				k = "be"
+			}
+			return seqOf(w.eval(c.Call.Args[1]), &Lay{K: k, W: width / 8, S: w.term(c.Call.Args[2])})
+		}
+	}
 	if sc.String() == "(*bytes.Buffer).Bytes" && len(c.Call.Args) == 1 {
 		if al := isBytesBufferAlloc(c.Call.Args[0]); al != nil {
 			return w.evalBufferBytes(al, c)
@@ -1279,9 +1292,58 @@ func (w *WEval) evalCall(c *ssa.Call) *Lay {
 		return &Lay{K: "hash", S: "sha256", Items: []*Lay{w.eval(c.Call.Args[0])}}
 	}
 	if inScope(pkgPathOf(sc)) && len(sc.Blocks) > 0 && sc.Signature.Results().Len() >= 1 && isByteSlice(sc.Signature.Results().At(0).Type()) {
+		w.callSite = c
+		defer func() { w.callSite = nil }()
 		return w.evalCallee(sc, c.Call.Args)
 	}
 	return unk("call to %s", name)
+}
+
+// derefBefore: the pointer v (by its term) was dereferenced on every way to the call: it is not nil there.
+func (w *WEval) derefBefore(call *ssa.Call, v ssa.Value) bool {
+	if call == nil {
+		return false
+	}
+	if _, isPtr := v.Type().Underlying().(*types.Pointer); !isPtr {
+		return false
+	}
+	vt := w.term(v)
+	if strings.Contains(vt, "Unknown") || vt == "" {
+		return false
+	}
+	// the location is not written in this function (the term names the same value at both places)
+	if ld, ok := v.(*ssa.UnOp); ok && ld.Op == token.MUL {
+		if fa, ok := ld.X.(*ssa.FieldAddr); ok {
+			f := fieldName(fa.X.Type(), fa.Field)
+			for _, b := range w.fn.Blocks {
+				for _, ins := range b.Instrs {
+					if st, ok := ins.(*ssa.Store); ok {
+						if fa2, ok := st.Addr.(*ssa.FieldAddr); ok && fieldName(fa2.X.Type(), fa2.Field) == f {
+							return false
+						}
+					}
+				}
+			}
+		}
+	}
+	for _, b := range w.fn.Blocks {
+		if !(b == call.Block() || b.Dominates(call.Block())) {
+			continue
+		}
+		for _, ins := range b.Instrs {
+			if ins == ssa.Instruction(call) {
+				break
+			}
+			if ld, ok := ins.(*ssa.UnOp); ok && ld.Op == token.MUL {
+				if _, isPtr := ld.X.Type().Underlying().(*types.Pointer); isPtr && ld.X != v || ld.X == v {
+					if ld.X == v || w.term(ld.X) == vt {
+						return true
+					}
+				}
+			}
+		}
+	}
+	return false
 }
 
 // evalCallee evaluates a module function's []byte result with the call's arguments.
@@ -1303,6 +1365,9 @@ func (w *WEval) evalCalleeResult(sc *ssa.Function, args []ssa.Value, ri int) *La
 				sub.argLay = map[ssa.Value]*Lay{}
 			}
 			sub.argLay[p] = w.eval(args[i])
+		}
+		if w.derefBefore(w.callSite, args[i]) {
+			sub.nonNil[p] = true
 		}
 		switch a := args[i].(type) {
 		case *ssa.Const:
